@@ -412,6 +412,14 @@ func (e *Exec) floatCmp(op token.Token, x, y Float) Bool {
 	tx, ty := e.floatTerm(x), e.floatTerm(y)
 	var sop string
 	neg := false
+	if e.mode == ModeINT && (op == token.LSS || op == token.GEQ) && x.S != nil && x.S.FloorCand != nil && y.S == nil &&
+		y.C == math.Trunc(y.C) && math.Abs(y.C) < 1e15 {
+		// x < c  <=>  floor(x) < c  and  x >= c  <=>  floor(x) >= c  for an integer constant c; when the solver confirms
+		// that floor(x) is x's integer addend (the floor lemma, cached) the comparison is an integer one
+		if fx := e.floorReal(x.S); fx == x.S.FloorCand {
+			return e.intCmp(op, Int{W: 64, Sg: true, S: fx}, Int{W: 64, Sg: true, C: int64(y.C)})
+		}
+	}
 	if e.mode == ModeINT {
 		switch op {
 		case token.EQL:
